@@ -283,7 +283,7 @@ func (p *Program) runInit(targets []string, solver *Solver) error {
 	whitelist := []string{"io", "errors", "bytes", "bufio", "strconv", "unicode/utf8", "unicode", "encoding/binary", "sort", "strings",
 		"math", "math/bits", "hash/fnv", "hash/crc32", "container/list", "container/heap", "context", "io/ioutil", "hash", "sync", "sync/atomic",
 		"time", "internal/bytealg", "internal/byteorder", "internal/itoa", "unicode/utf16", "path", "path/filepath", "slices", "cmp", "maps",
-		"github.com/pkg/errors", "internal/oserror", "io/fs", "encoding/base64"}
+		"github.com/pkg/errors", "internal/oserror", "io/fs", "encoding/base64", "github.com/boltdb/bolt"}
 	for _, w := range whitelist {
 		p.initPkgs[w] = true
 	}
